@@ -155,7 +155,94 @@ def rebuild(case):
     return comp
 
 
+def shared_loader_probe(tag, variant):
+    """One SchemaLoader shared by an application whose schemas extend a common base: while the
+    base is being read on behalf of one schema, the import of a module it names as datatype loads
+    -- through the same loader -- another schema that extends the same base.  Both must equal
+    their written-out mergers.  -> [(sig, detail)]"""
+    import importlib
+    import os
+    import shutil
+    import sys
+    import tempfile
+    from urllib.request import pathname2url
+    ZConfig = loadcheck.zc()
+    import ZConfig.loader
+    from zcv import dt as zdt
+    mod = "zcvc11mod_%s" % tag
+    base_items = '  <key name="lvl" datatype="%s.conv" default="3"/>\n  <sectiontype name="bt"><key name="k"/></sectiontype>\n' % mod
+    if variant % 2:
+        base_items += '  <multisection type="bt" name="*" attribute="bts"/>\n'
+    docs = {
+        "base.xml": "<schema>\n%s</schema>\n" % base_items,
+        "app.xml": '<schema extends="base.xml">\n  <key name="app" default="a"/>\n</schema>\n',
+        "settings.xml": '<schema extends="base.xml%s">\n  <key name="setting" default="s"/>\n</schema>\n' % (" more.xml" if variant >= 2 else ""),
+        "more.xml": '<schema>\n  <key name="more" default="m"/>\n</schema>\n',
+        "app-merged.xml": "<schema>\n%s  <key name=\"app\" default=\"a\"/>\n</schema>\n" % base_items,
+        # (bases are merged last-named first)
+        "settings-merged.xml": "<schema>\n%s%s  <key name=\"setting\" default=\"s\"/>\n</schema>\n"
+                               % ('  <key name="more" default="m"/>\n' if variant >= 2 else "", base_items),
+        mod + ".py": "import zcv.dt\n\n\ndef conv(value):\n    return int(value) * 2\n\n\nif zcv.dt.SCHEMA_HOOK is not None:\n    zcv.dt.SCHEMA_HOOK()\n",
+    }
+    out = []
+    root = tempfile.mkdtemp(prefix="zcv-c11-")
+    try:
+        for fn, text in docs.items():
+            with open(os.path.join(root, fn), "w", encoding="utf-8") as f:
+                f.write(text)
+        sys.path.insert(0, root)
+        importlib.invalidate_caches()
+        url = lambda fn: "file://" + pathname2url(os.path.join(root, fn))      # noqa: E731
+        loader = ZConfig.loader.SchemaLoader()
+        nested = []
+
+        def hook():
+            if not nested:
+                nested.append(None)
+                try:
+                    nested[0] = ("ok", digest.schema_digest(loader.loadURL(url("settings.xml"))))
+                except Exception as e:  # noqa
+                    nested[0] = ("raises", "%s: %s" % (type(e).__name__, str(e)[:150]))
+        zdt.SCHEMA_HOOK = hook
+        try:
+            try:
+                outer = ("ok", digest.schema_digest(loader.loadURL(url("app.xml"))))
+            except Exception as e:  # noqa
+                outer = ("raises", "%s: %s" % (type(e).__name__, str(e)[:150]))
+        finally:
+            zdt.SCHEMA_HOOK = None
+        want_outer = ("ok", digest.schema_digest(ZConfig.loadSchema(url("app-merged.xml"))))
+        want_nested = ("ok", digest.schema_digest(ZConfig.loadSchema(url("settings-merged.xml"))))
+        if not nested:
+            out.append(("shared-loader-probe-did-not-nest", "the datatype module was not imported during the load"))
+        else:
+            for label, got, want in (("outer", outer, want_outer), ("nested", nested[0], want_nested)):
+                if got[0] != "ok":
+                    out.append(("schema-loaded-inside-another-load-of-the-same-loader:%s-refused" % label, got[1]))
+                else:
+                    d = digest.first_diff(_without_url(want[1]), _without_url(got[1]))
+                    if d:
+                        out.append(("schema-loaded-inside-another-load-of-the-same-loader:%s-differs" % label, d))
+    finally:
+        if root in sys.path:
+            sys.path.remove(root)
+        sys.modules.pop(mod, None)
+        importlib.invalidate_caches()
+        shutil.rmtree(root, ignore_errors=True)
+    return out
+
+
+def _without_url(d):
+    if isinstance(d, dict):
+        return {k: _without_url(v) for k, v in d.items() if k != "url"}
+    if isinstance(d, list):
+        return [_without_url(x) for x in d]
+    return d
+
+
 def evaluate(case):
+    if "shared_loader_probe" in case:
+        return [failure(sig, case, d) for sig, d in shared_loader_probe(*case["shared_loader_probe"])]
     comp = rebuild(case)
     res = compare_case(case["schema"], comp, [case["text"]])
     out = []
@@ -176,6 +263,12 @@ def run_shard(spec):
     res = Result()
     counters = collections.Counter()
     for i in range(spec["lo"], spec["hi"]):
+        if i % 40 == 0:
+            args = ["%d_%d" % (spec["seed"] % 1000, i % 3), (i // 40) % 4]
+            res.evaluations += 1
+            counters["shared-loader-probes"] += 1
+            for sig, d in shared_loader_probe(*args):
+                res.fail(sig, {"shared_loader_probe": args}, d)
         rng = loadcheck.case_rng(spec["seed"] + 1111, i)
         ast = gen.gen_schema(rng, section_dts=SECTION_DTS, value_dts=VALUE_DTS, keytypes=KEYTYPES,
                              derive_bias=rng.choice([0.3, 0.6, 0.8]), boost=0)
